@@ -9,6 +9,7 @@
 
   Proved for all inputs (no size bounds):
     parent_restored              writing leaves every feature of the full record as it was
+    annotations_parent_unchanged … and every (nested) dict of its annotations
     cross_origin_sequence        the file's sequence is `seq[start:] ++ seq[:end]` (or `seq[start:end]`)
     sequence_is_region_sequence  … i.e. nucleotide `i` of the file is nucleotide `toRecord i` of the record
     renumber_consistent          every cross reference by number is sent through ONE renumbering per
@@ -32,6 +33,7 @@
   modelled) showing one region with the same content; leader/tail texts.
 -/
 import ASV.Proofs.RegionExtractRegion
+import ASV.Proofs.RegionAnnotations
 namespace ASV.C12
 open ASV ASV.RegionExtract
 
@@ -47,6 +49,36 @@ theorem annotations_record_origin (rd : RegionData) :
 theorem parent_restored (rd : RegionData) (rec : BioRecord) (w : Written)
     (h : writeToGenbank rd rec = .ok w) : w.parentAfter = rec.features :=
   writeToGenbank_parent rd rec w h
+
+/-- … and so do its annotations, nested dicts included.  The annotation dicts live in a heap of objects referring
+    to each other by address (`AHeap`); `_build_annotations` (deep copy, `setdefault` twice, three item
+    assignments — `buildAnnotationsHeap`) changes no object that existed before the call, so the full record's
+    annotations dict, read with all references resolved (`readTop`), says afterwards what it said before —
+    whether or not it already carried a structured comment or the antiSMASH-Data entry. -/
+theorem annotations_parent_unchanged (h : AHeap) (parent : Nat) (rd : RegionData) (h' : AHeap) (a : Nat)
+    (hb : buildAnnotationsHeap h parent rd = some (h', a)) :
+    (∀ i, i < h.length → h'[i]? = h[i]?) ∧ ∃ t, readTop h parent = some t ∧ readTop h' parent = some t :=
+  buildAnnotations_keeps_parent h parent rd h' a hb
+
+def exLaterRd : RegionData := { start := 13, «end» := 15, cands := [], subs := [⟨2, .simple ⟨13, 15, .fwd⟩⟩] }
+
+/-- a full record carrying the comment `main.add_antismash_comments` adds: top dict at address 2 -/
+def exHeap : AHeap :=
+  [.data [("Version", "7.1"), ("Run date", "2000-01-01")], .comments [("antiSMASH-Data", 0)],
+   .top [("topology", "circular")] (some 1)]
+
+/-- the code: the region file gets NOTE / Orig. start / Orig. end, the full record keeps its comment … -/
+example : (buildAnnotationsHeap exHeap 2 exLaterRd).map (fun r => (readTop r.1 r.2, readTop r.1 2)) =
+    some (some ⟨[("topology", "circular")], some [("antiSMASH-Data", [("Version", "7.1"), ("Run date", "2000-01-01"),
+            ("NOTE", notePlain), ("Orig. start", "13"), ("Orig. end", "15")])]⟩,
+          readTop exHeap 2) := by decide
+/-- … which is what the spec expects of the file -/
+example : (buildAnnotationsHeap exHeap 2 exLaterRd).map (fun r => readTop r.1 r.2) =
+    (readTop exHeap 2).map (fun t => some (expectedAnn t exLaterRd)) := by decide
+/-- the variant with one-level copies (`dict(annotations)`, `dict(structured_comment)`) shares the antiSMASH-Data
+    dict with the full record and writes the region's NOTE into it: the theorem is false for it -/
+example : (buildAnnotationsShallow exHeap 2 exLaterRd).map (fun r => decide (readTop r.1 2 = readTop exHeap 2)) = some false := by
+  decide
 
 /-- The file's sequence: the part before the origin followed by the part after it for a region
     running over the origin, the plain slice otherwise. -/
